@@ -65,8 +65,13 @@ package excellent
 
 // scanIdentifier: the allowed top-levels decide between an identifier and literal text; a nil list allows everything, an
 // empty list nothing
+// lower-casing is idempotent (assumed of strings.ToLower: it maps rune by rune with unicode.ToLower); the clauses below are
+// written over strings.ToLower(topLevel) so that they hold whether the code lower-cases the variable in place or on use
+//@ axiom tolower_idem: forall x string {strings.ToLower(strings.ToLower(x))} :: strings.ToLower(strings.ToLower(x)) == strings.ToLower(x)
+
 //@ func (s *xscanner) scanIdentifier
 //@   nopanic
+//@   uses tolower_idem
 //@   havocs WriteRune, String, Sprintf
 //@   requires s != nil && inOK(s.input) && inputOK() && s.input.unreadCount <= 2
 //@   ensures [at_most_two_unread] inOK(s.input) && inputOK() && s.input.unreadCount <= 2
@@ -75,14 +80,14 @@ package excellent
 //@   ensures [empty_allows_none] (s.identifierTopLevels != nil && len(s.identifierTopLevels) == 0) ==> result0 == BODY
 // with a list, the token is an identifier exactly when the (lower-cased) top level is literally one of the listed names -
 // nothing looser (case folding, prefixes) lets text after an '@' be taken for an expression
-//@   checks [listed_exactly] s.identifierTopLevels != nil ==> (result0 == IDENTIFIER <==> (exists k int :: 0 <= k && k < len(s.identifierTopLevels) && s.identifierTopLevels[k] == local(topLevel)))
+//@   checks [listed_exactly] s.identifierTopLevels != nil ==> (result0 == IDENTIFIER <==> (exists k int :: 0 <= k && k < len(s.identifierTopLevels) && s.identifierTopLevels[k] == strings.ToLower(local(topLevel))))
 // at each loop head one rune has just been read: at most one is left unread
 //@ loop 1
 //@   invariant inOK(s.input) && inputOK() && s.input.unreadCount <= 1
 //@   invariant netPos(s.input) >= old(netPos(s.input)) + (ch != eof ? 1 : 0)
 //@ loop 2
 //@   invariant inOK(s.input) && inputOK() && s.input.unreadCount <= 2 && netPos(s.input) >= old(netPos(s.input))
-//@   invariant forall j int :: (0 <= j && j <= $i) ==> s.identifierTopLevels[j] != topLevel
+//@   invariant forall j int :: (0 <= j && j <= $i) ==> s.identifierTopLevels[j] != strings.ToLower(topLevel)
 
 // scanExpression (called right after "@(", nothing unread): never leaves anything unread; a text literal inside is skipped by
 // readTextLiteral, so parentheses are only counted outside literals
